@@ -1112,7 +1112,6 @@ func (ck *checker) saveEnd() error {
 		if ck.ovRenames >= 2 {
 			ck.c.Probe("overlap_two_renames_onto_dest")
 		}
-		ck.evf("%s save %d (overlap) ends: destination is a complete candidate", ck.label, k)
 		absent2, data2, _ := ck.destView()
 		ck.prev = version{absent: absent2, data: data2}
 		ck.c.Step()
@@ -1289,6 +1288,7 @@ func run(t *testing.T, scAny any, c *kernel.Ctx) error {
 			}
 			c.Probe("overlap_repetition")
 		}
+		c.Eventf("overlapping saves: %d runs, the destination was a complete candidate table at every instant and in every crash state", overlapReps)
 	}
 	for k, s := range r.result.Saves {
 		if s.Err != "" {
@@ -1409,7 +1409,7 @@ func tail(s string, n int) string {
 }
 
 // overlapReps is how often the baseline of a case with overlapping saves runs.
-const overlapReps = 5
+const overlapReps = 8
 
 // maxWhen is the largest ordinal strace's inject=...:when= accepts.
 const maxWhen = 65535
@@ -1493,6 +1493,8 @@ var Prop = &kernel.Property{
 		"with sizes from 0 B up (tens of MB in the thorough tier), executed by the real code in a helper process under strace. " +
 		"Every syscall boundary of the trace is a crash point (all enumerated); per crash point the un-synced 4 KiB blocks persist as " +
 		"none / all / prefixes / last-only / seeded random subsets and the directory operations as every prefix of the issued ones. " +
+		"For the lease DB the last save of a case may be an 'overlap' (2-3 static leases added at the same time from separate goroutines, traced with strace -f and write payloads, run 8 times): " +
+		"the acceptable complete versions are then the previous table plus any subset of the added leases, each serialised by the real code. " +
 		"Error injection re-runs the helper with ENOSPC/EIO on chosen (InjectAll: all) open/write/fsync/fchmod/close/rename calls of the saves. " +
 		"Non-trivial = the destination was replaced by a rename at least once and at least one crash state was materialised and compared.",
 	Gen:        Gen,
@@ -1515,6 +1517,7 @@ var Prop = &kernel.Property{
 		"a power loss may leave a complete version OLDER than the previous one (the rename of an earlier save is not durable until the directory is synced, which the code never does); this is counted (probe stale_version_state) and not treated as a violation, because the statement is about atomicity, not durability",
 		"the content of a write(fd, n) at offset o is newVersion[o:o+n]; the model is compared byte-for-byte with the real tree at the end of every run, and overlapping writes within a save are refused",
 		"syscall error injection is strace's: the call is not executed and returns the error; partial writes are not injected",
+		"overlapping saves are real concurrency: which interleavings occur is up to the OS scheduler (8 runs per case), a violation found there is re-found by re-running, not by exact replay; the event log of that phase carries only schedule-independent lines",
 		"sizes: quick up to 2 MiB, thorough up to 32 MiB (configuration 8 MiB)",
 	},
 	FaultKinds: []string{"power_loss_boundary", "crash_state", "inject_ENOSPC", "inject_EIO", "inject_EINTR"},
